@@ -89,7 +89,8 @@ Proof. intros B f l. induction l; simpl; intros; auto. rewrite IHl by assumption
 
 Lemma analyze_nodes : forall pr g m, g_nodes (analyzeModuleDependencies pr g m) = g_nodes g.
 Proof.
-  intros. unfold analyzeModuleDependencies. apply fold_nodes. intros g0 ii. unfold analyze_import.
+  intros. unfold analyzeModuleDependencies. destruct (shadowed pr m); [reflexivity|].
+  apply fold_nodes. intros g0 ii. unfold analyze_import.
   destruct (ii_tc ii); auto. apply fold_nodes. intros g1 r.
   destruct (m_is_pkg m && strict_prefixb (m_path m) r); auto. apply AddDependency_nodes.
 Qed.
